@@ -289,7 +289,13 @@ auto whenAnyTuple(Invoker& invoker, Futures&&... futures) -> Future<size_t> {
       future.wait();
       size_t expected = SIZE_MAX;
       DISPENSO_VERIF_POINT("FuWyInlineCas", &shared->winner);
-      shared->winner.compare_exchange_strong(expected, idx, std::memory_order_acq_rel);
+      if (shared->winner.compare_exchange_strong(expected, idx, std::memory_order_acq_rel)) {
+        // We claimed the winner, so no .then callback will
+        // ever win the CAS and invoke shared->f.  shared->f holds the queued reference of the
+        // result future: invoke it ourselves (run() sees kRunning and only drops that reference),
+        // otherwise the result's shared state is never deallocated.
+        shared->f();
+      }
       return false; // one input resolved ⇒ winner is now set; stop iterating.
     });
     DISPENSO_VERIF_POINT("FuWyWinnerLd2", &shared->winner);
@@ -354,7 +360,13 @@ Future<size_t> whenAnyIterators(Invoker& invoker, InputIt first, InputIt last) {
     shared->vec[0].wait();
     size_t expected = SIZE_MAX;
     DISPENSO_VERIF_POINT("FuWyInlineCas", &shared->winner);
-    shared->winner.compare_exchange_strong(expected, size_t{0}, std::memory_order_acq_rel);
+    if (shared->winner.compare_exchange_strong(expected, size_t{0}, std::memory_order_acq_rel)) {
+      // We claimed the winner, so no .then callback will ever
+      // win the CAS and invoke shared->f.  shared->f holds the queued reference of the result
+      // future: invoke it ourselves (run() sees kRunning and only drops that reference), otherwise
+      // the result's shared state is never deallocated.
+      shared->f();
+    }
     DISPENSO_VERIF_POINT("FuWyWinnerLd2", &shared->winner);
     return shared->winner.load(std::memory_order_acquire);
   };
